@@ -18,6 +18,7 @@ from .report import Report
 warnings.filterwarnings("ignore")
 
 TRACE_CFG = "SPECIFICATION Spec\nCHECK_DEADLOCK FALSE\n"
+PROCS = max(1, int(os.environ.get("VERIF_PROCS", "16")))
 
 
 # ---------------------------------------------------------------------------------------
@@ -57,10 +58,11 @@ def _call(task):
         return None, traceback.format_exc()
 
 
-def fan_out(tasks, procs=16):
+def fan_out(tasks, procs=None):
     """tasks: list of (module, function, args). Returns list of (result, error-or-None) in order."""
     if not tasks:
         return []
+    procs = procs or PROCS
     if len(tasks) == 1 or procs <= 1:
         return [_call(t) for t in tasks]
     with mp.Pool(min(procs, len(tasks))) as pool:
@@ -113,3 +115,27 @@ def corrupt_check(module: str, corrupted: list, rep: Report, key: str, *, env=No
     rep.coverage[key + "_rejected"] = ok
     if missed and (need_all or ok == 0):
         rep.machinery(f"{module}: corrupted traces accepted: {missed[:4]}")
+
+
+def validate_with_selftest(module: str, traces: list, corrupted: list, rep: Report, key="selftest", *, env=None,
+                           timeout=1800):
+    """One TLC run over `traces` followed by the corrupted copies (`corrupted`: list of (trace,
+    expected_line or None, description)).  Returns (rejects of the real traces {tid: payload}, TLCResult).
+    Every corrupted trace must be rejected (at or before expected_line when given), otherwise the
+    binding is vacuous there -> machinery error."""
+    rej, res = validate_batch(module, list(traces) + [c[0] for c in corrupted], env=env, timeout=timeout)
+    n = len(traces)
+    ok, missed = 0, []
+    for i, (_, line, what) in enumerate(corrupted):
+        r = rej.get(n + i + 1)
+        if r is not None and (line is None or r.get("line", 0) <= line):
+            ok += 1
+        else:
+            missed.append(what)
+    rep.coverage[key + "_corrupted"] = len(corrupted)
+    rep.coverage[key + "_rejected"] = ok
+    if not corrupted:
+        rep.machinery(f"{module}: self-test produced no corrupted trace")
+    if missed:
+        rep.machinery(f"{module}: corrupted traces accepted: {missed[:4]}")
+    return {t: r for t, r in rej.items() if t <= n}, res
